@@ -546,6 +546,9 @@ def property_oracle(case, obs, cval, sval, resumed=None):
     if resumed:
         # second connection of a history: same property, keys tagged with the resumption mechanism
         inner = property_oracle(case, obs, cval, sval)
+        if obs['client_outcome'] == ['ok'] and obs['server_outcome'] == ['ok'] and not obs['client'].get('resumed') \
+                and not obs['server'].get('resumed'):
+            return inner      # the session was not used: an ordinary full handshake, ordinary keys
         out = []
         for k, what in inner:
             if k.startswith('views-differ:schain') or k.startswith('views-differ:cchain'):
